@@ -141,7 +141,12 @@ impl Vm {
             // Update the gas spent.
             gas_spent = next_spent;
 
-            // Execute the operation.
+            // Execute the operation. Compute children draw from what is left of the
+            // total budget, so the limit holds for the parent and its children together.
+            let remaining = GasLimit {
+                total: gas_limit.total - gas_spent,
+                ..gas_limit
+            };
             let res = step_op(
                 access.clone(),
                 op,
@@ -149,7 +154,7 @@ impl Vm {
                 state_reads,
                 op_access.clone(),
                 op_gas_cost,
-                gas_limit,
+                remaining,
             );
 
             #[cfg(feature = "tracing")]
